@@ -422,7 +422,9 @@ def main():
                 for d in r["disagreements"][:1]:
                     broken.append({"kind": "correspondence", "name": f"model vs implementation on case {d['id']}", "detail": json.dumps(d)[:1500]})
             # targeted search when something broke and no failing input is at hand yet
-            if broken and not r.get("failing") and tier == "quick" and binp and driver_ok and r.get("harness_rc") == 0:
+            kf0 = known_findings(pid)
+            unknown0 = [c for c in r.get("failing", []) if c["region"] not in kf0]
+            if broken and not unknown0 and tier == "quick" and binp and driver_ok and r.get("harness_rc") == 0:
                 focus = broken[0]["name"]
                 r2 = run_cases(dict(cfg, timeout={"thorough": cfg.get("search_timeout", 900)}), binp, seed + 7919, "thorough", focus, scratch, log)
                 runs.append(r2)
